@@ -30,8 +30,10 @@ pub enum Inject {
     InterleaverIndivisible,
     /// 8PSK with a transmitted length that is not a multiple of 3: stage panics in every worker
     Psk8Indivisible,
-    /// scripted decoder panics in the workers of `mask` at their `at_frame`-th frame
-    DecoderPanic { mask: u16, at_frame: u64 },
+    /// scripted decoder panics in the workers of `mask` at their `at_frame`-th frame; with `slow`
+    /// every frame of every decoder takes 30 ms, so that the surviving workers are in the middle of a
+    /// frame when the faulty one is noticed (all workers must still have been joined when run() returns)
+    DecoderPanic { mask: u16, at_frame: u64, #[serde(default)] slow: bool },
 }
 
 #[derive(Debug, Clone, Serialize, Deserialize)]
@@ -68,13 +70,14 @@ fn inject_strategy(tier: Tier) -> BoxedStrategy<Case> {
             1 => Just(Inject::PuncturingIndivisible),
             2 => Just(Inject::InterleaverIndivisible),
             2 => Just(Inject::Psk8Indivisible),
-            4 => (any::<u16>(), 0u64..30, 0..3u8).prop_map(|(mask, at_frame, kind)| Inject::DecoderPanic {
+            4 => (any::<u16>(), 0u64..30, 0..3u8, prop::bool::weighted(0.4)).prop_map(|(mask, at_frame, kind, slow)| Inject::DecoderPanic {
                 mask: match kind {
                     0 => 0xffff,
                     1 => mask | 1,
                     _ => mask,
                 },
-                at_frame
+                at_frame: if slow { at_frame % 3 } else { at_frame },
+                slow,
             }),
         ],
     )
@@ -140,6 +143,7 @@ struct Shared {
     delay_mode: u32,
     panic_mask: u16,
     panic_at: u64,
+    slow: bool,
     workers_per_point: AtomicUsize,
 }
 
@@ -200,6 +204,9 @@ impl LdpcDecoder for SDec {
             panic!("scripted decoder panic (injected)");
         }
         self.frame += 1;
+        if self.sh.slow {
+            std::thread::sleep(Duration::from_millis(30));
+        }
         match self.sh.delay_mode {
             1 => {
                 if r % 3 == 0 {
@@ -331,11 +338,11 @@ fn run_case(c: &Case) -> serde_json::Value {
     }
     let hh = test_h();
     let k = hh.num_cols() - hh.num_rows();
-    let (mask, at) = match c.inject {
-        Inject::DecoderPanic { mask, at_frame } => (mask, at_frame),
-        _ => (0, 0),
+    let (mask, at, slow) = match c.inject {
+        Inject::DecoderPanic { mask, at_frame, slow } => (mask, at_frame, slow),
+        _ => (0, 0, false),
     };
-    let sh = Arc::new(Shared { seed: c.seed, k, built: AtomicUsize::new(0), dropped: AtomicUsize::new(0), produced: Mutex::new([0; NTYPES]), weights: c.weights, delay_mode: c.delay_mode, panic_mask: mask, panic_at: at, workers_per_point: AtomicUsize::new(c.ncpu) });
+    let sh = Arc::new(Shared { seed: c.seed, k, built: AtomicUsize::new(0), dropped: AtomicUsize::new(0), produced: Mutex::new([0; NTYPES]), weights: c.weights, delay_mode: c.delay_mode, panic_mask: mask, panic_at: at, slow, workers_per_point: AtomicUsize::new(c.ncpu) });
     let ebn0s: Vec<f32> = (0..c.points).map(|i| 40.0 + i as f32).collect();
     let (tx, rx) = std::sync::mpsc::channel();
     let reporter = Some(Reporter { tx, interval: Duration::from_micros(50) });
@@ -400,6 +407,8 @@ fn run_case(c: &Case) -> serde_json::Value {
             _ => BerTest::<Bpsk, _>::new(hh.clone(), factory, None, None, c.max_err, 7, &ebn0s, reporter, bch_t).map_err(|e| e.to_string())?.run().map_err(|e| e.to_string()),
         }
     });
+    // "the run joins all workers": sampled at the very moment run() returns
+    let (built_at_return, dropped_at_return) = (sh.built.load(Ordering::SeqCst), sh.dropped.load(Ordering::SeqCst));
     returned.store(true, Ordering::SeqCst);
     let _ = monitor.join();
     let reports = std::mem::take(&mut *reports.lock().unwrap());
@@ -420,8 +429,8 @@ fn run_case(c: &Case) -> serde_json::Value {
     if finished != 1 || reports.last() != Some(&Report::Finished) {
         return viol("finished-report", format!("'finished' report delivered {finished} times, last report is {:?}", reports.last().map(|r| matches!(r, Report::Finished))));
     }
-    if built != dropped {
-        return viol("workers-not-joined", format!("{built} decoders were built but only {dropped} dropped when run() returned"));
+    if built_at_return != dropped_at_return || built != dropped {
+        return viol("workers-not-joined", format!("{built_at_return} decoders were built but only {dropped_at_return} had been dropped at the moment run() returned ({dropped} a little later): not every worker was joined"));
     }
     if c.inject != Inject::None {
         classes.push("injection");
@@ -543,7 +552,7 @@ pub fn property() -> Property {
             }),
             Box::new(Sub {
                 name: "fault-injection",
-                rule: "failure-injecting configurations, each in a child process with a witness monitor: puncturing pattern that does not divide n (stage returns an error), interleaver columns / 8PSK symbol size that do not divide the transmitted length (stage panics in every worker), scripted decoder panicking in all / some workers at a generated frame; required: run() returns (Err for the block-size cases; Err, or statistics satisfying all identities, when only some workers died), does not itself panic, 'finished' is delivered once and last, all decoders dropped; a hang is a violation only with a positive witness (every decoder built has been dropped and run() has not returned 2 s later, or the final report of the last point was seen and run() has not returned 10 s later); a bare 60 s watchdog expiry is inconclusive (exit 2)",
+                rule: "failure-injecting configurations, each in a child process with a witness monitor: puncturing pattern that does not divide n (stage returns an error), interleaver columns / 8PSK symbol size that do not divide the transmitted length (stage panics in every worker), scripted decoder panicking in all / some workers at a generated frame (in 40 % of these every frame takes 30 ms, so that the surviving workers are mid-frame when the fault is noticed); required: run() returns (Err for the block-size cases; Err, or statistics satisfying all identities, when only some workers died), does not itself panic, 'finished' is delivered once and last, every decoder built has been dropped at the very moment run() returns (all workers joined); a hang is a violation only with a positive witness (every decoder built has been dropped and run() has not returned 2 s later, or the final report of the last point was seen and run() has not returned 10 s later); a bare 60 s watchdog expiry is inconclusive (exit 2)",
                 cases: |t| t.pick(200, 5_000),
                 strategy: inject_strategy,
                 check,
